@@ -35,7 +35,7 @@ class C01(Check):
     thorough = (12000, 16)
 
     def __init__(self):
-        self.feat = gen.Features(hints=0.1, dict_null=True, int_float_defaults=True)
+        self.feat = gen.Features(hints=0.1, dict_null=True, int_float_defaults=True, bytes_defaults=True, ambiguous_union_defaults=True)
 
     def selftest(self):
         B.selftest()
